@@ -7,7 +7,7 @@ import fam_md
 class Unit:
     def __init__(self, name, fam, target, props, inline=(), stubs=(), assumed=(), decls=(), lemmas=(), macros=(), insts=(), mode='P',
                  unwind=None, solver='minisat', timeout=600, mem_gb=8, thorough_insts=(), notes='', object_bits=12, harness=None,
-                 frame_ghost_only=False, extra_flags=(), canary=True, spec=('pgm.spec',), cases=None, assumptions=(), partition=0):
+                 frame_ghost_only=False, extra_flags=(), canary=True, spec=('pgm.spec',), cases=None, assumptions=(), partition=0, defines=(), drop_checks=()):
         self.name, self.fam, self.target, self.props = name, fam, target, list(props)
         self.inline, self.stubs, self.assumed = list(inline), list(stubs), list(assumed)
         self.decls, self.lemmas, self.macros = list(decls), list(lemmas), list(macros)
@@ -21,6 +21,8 @@ class Unit:
         self.cases = cases          # optional case split: list of (-D name=value) tuples, each an independent cbmc run
         self.assumptions = list(assumptions)
         self.partition = partition
+        self.defines = list(defines)
+        self.drop_checks = list(drop_checks)
 
 
 def kinst(k, floating='float'):
@@ -66,7 +68,9 @@ U('pgmindex_segment_for_key', fam_pgm, 'PGMIndex_segment_for_key', ['C01', 'C02'
   macros=fam_pgm.MACROS, insts=QUICK_K[:1], thorough_insts=QUICK_K, frame_ghost_only=True, assumptions=[ACC_NOTE], partition=32, timeout=1500,
   cases=[('PGMV_CASE', '0'), ('PGMV_CASE', '1'), ('PGMV_CASE', '2')])
 
-U('segment_call', fam_pgm, 'Segment_call', ['C01', 'C02', 'C17'], decls=['pgm_ghost'],
+U('segment_call', fam_pgm, 'Segment_call', ['C01', 'C02', 'C17'], decls=['pgm_ghost'], defines=['PGMV_F2I_STRICT'], timeout=900,
+  drop_checks=['--conversion-check'],   # the signed -> unsigned conversion of k and key is intended (modular, well defined)
+
   insts=[kinst('uint64_t'), kinst('int64_t'), kinst('int32_t'), kinst('int16_t')], thorough_insts=ALL_K)
 
 
